@@ -409,6 +409,13 @@ func init() {
 		},
 		"zzverif.Known": func(in *Interp, fn *ssa.Function, a []Value) Value {
 			k, _ := a[0].(StrV).Conc()
+			// a later Known with the same key replaces the earlier condition (lets a harness scope a region to one assertion)
+			for i := range in.knowns {
+				if in.knowns[i].key == k {
+					in.knowns[i].cond = a[1].(*Term)
+					return nil
+				}
+			}
 			in.knowns = append(in.knowns, knownCond{k, a[1].(*Term)})
 			return nil
 		},
